@@ -50,7 +50,8 @@ def mesh_desc(draw):
     segs = {}
     for name in LODS:
         if draw(st.integers(0, 2)) > 0:
-            segs[name] = draw(st.lists(material(), min_size=1, max_size=3))
+            # a LOD that is present with no materials at all is legal LLSD and must survive like any other
+            segs[name] = draw(st.lists(material(), min_size=0 if draw(st.integers(0, 7)) == 0 else 1, max_size=3))
     if draw(st.booleans()):
         k = draw(st.integers(0, 4))
         c = {"Min": [draw(F) for _ in range(3)], "Max": [draw(F) for _ in range(3)], "BoundingVerts": _u16s(draw, 3 * k)}
@@ -70,6 +71,8 @@ def mesh_desc(draw):
         segs["physics_havok"] = {"WeldingData": draw(st.binary(max_size=12)), "MOPP": {"BuildType": draw(st.integers(0, 3)), "MoppData": draw(st.binary(max_size=8))}}
     if draw(st.integers(0, 3)) == 0:
         segs["future_segment"] = {"Anything": [draw(st.integers(0, 99)), draw(st.binary(max_size=6))]}
+    if draw(st.integers(0, 7)) == 0:
+        segs["empty_future_segment"] = draw(st.sampled_from([{}, []]))
     header = {"version": draw(st.integers(0, 3))}
     if draw(st.booleans()):
         header["creator"] = UUID(int=draw(st.integers(0, 2 ** 128 - 1)))
@@ -262,6 +265,8 @@ def classes(d):
     c = ["mesh:endian:" + d["endian"]]
     for name, seg in d["segments"].items():
         c.append("mesh:seg:" + name)
+        if not seg:
+            c.append("mesh:empty-segment")
         if name in LODS:
             for m in seg:
                 if "Weights" in m:
